@@ -69,7 +69,13 @@ var (
 	retired = map[int64]bool{}
 )
 
+var sched = lib.NewSched()
+
 func yieldHook(point string) {
+	if point == "watch.subscribed" || point == "watch.cache_read" {
+		sched.Yield(point)
+		return
+	}
 	if point != "seq.idle" {
 		return
 	}
@@ -338,9 +344,9 @@ func oneRun(w *lib.Writer, rnd *lib.Rand, engine, scratch string, cacheSize int)
 		}
 	}
 	mu.Unlock()
-	stalled := !waitUntil(5*time.Second, func() bool { return b.GetCurrentRevision() >= last })
+	stalled := !waitUntil(20*time.Second, func() bool { return b.GetCurrentRevision() >= last })
 	if werr == nil && lastMatch > 0 {
-		waitUntil(3*time.Second, func() bool {
+		waitUntil(15*time.Second, func() bool {
 			emu.Lock()
 			defer emu.Unlock()
 			return len(evs) > 0 && evs[len(evs)-1].rev >= lastMatch
@@ -374,7 +380,7 @@ func oneRun(w *lib.Writer, rnd *lib.Rand, engine, scratch string, cacheSize int)
 	if werr == nil {
 		select {
 		case <-wclosed:
-		case <-time.After(3 * time.Second):
+		case <-time.After(15 * time.Second):
 		}
 	}
 	if atomic.LoadInt32(&ncompact) > 0 {
@@ -419,6 +425,225 @@ func oneRun(w *lib.Writer, rnd *lib.Rand, engine, scratch string, cacheSize int)
 	}
 }
 
+// scanGate runs `do` once, on goroutine gid, at its next engine call of kind "parts" or "iter" (i.e. inside the
+// scan of a List whose header revision has already been read).
+type scanGate struct {
+	gid int64
+	do  func()
+}
+
+func (g *scanGate) before(kind string, key []byte) error {
+	if (kind == "parts" || kind == "iter") && atomic.LoadInt64(&g.gid) != 0 && lib.GoID() == atomic.LoadInt64(&g.gid) {
+		atomic.StoreInt64(&g.gid, 0)
+		g.do()
+	}
+	return nil
+}
+
+// hookedRun: deterministic placements. (a) another client's Create commits WHILE the List scans (after the
+// header revision was read); (b) writes by another client inside the Watch call: between the hub registration
+// and the cache read, and between the cache read and the start of processEvents. midScan=false gives the
+// live-only path of Watch (start revision above the newest cached event), true the catch-up path.
+func hookedRun(w *lib.Writer, rnd *lib.Rand, scratch string, midScan bool, cacheSize int) {
+	inner, closer, err := lib.NewEngine(lib.EngMem, scratch)
+	if err != nil {
+		w.Fail(lib.ImplFailure{CaseID: -1, What: "engine: " + err.Error()})
+		return
+	}
+	defer closer()
+	gate := &scanGate{}
+	c0 := uint64(100 + 100*rnd.Intn(3))
+	b := backend.NewBackend(&lib.Wrap{KvStorage: inner, Before: gate.before}, backend.Config{Prefix: "/r", Identity: "c06", WatchCacheSize: cacheSize}, &lib.NopMetrics{})
+	b.SetCurrentRevision(c0)
+	defer retire()
+	P := rnd.PickB(prefixes[:3])
+	kn := &known{m: map[string]uint64{}}
+	outcomes := map[string]bool{"engine=memkv": true, "hooked": true}
+	var slots []slot
+	fail := ""
+	// monitor: counts the events the hub has fanned out
+	mctx, mcancel := context.WithCancel(context.Background())
+	defer mcancel()
+	mch, _ := b.Watch(mctx, "", 0)
+	var mcount int64
+	go func() {
+		for batch := range mch {
+			atomic.AddInt64(&mcount, int64(len(batch)))
+		}
+	}()
+	nops, nvalid := uint64(0), int64(0)
+	settle := func(s slot, oc string) {
+		nops++
+		outcomes[oc] = true
+		if s.valid {
+			nvalid++
+			slots = append(slots, s)
+		}
+		want, wantEv := c0+nops, nvalid
+		if !waitUntil(20*time.Second, func() bool { return b.GetCurrentRevision() >= want && atomic.LoadInt64(&mcount) >= wantEv }) && fail == "" {
+			fail = fmt.Sprintf("write %d not committed and fanned out within 20s (committed %d, want %d)", nops, b.GetCurrentRevision(), want)
+		}
+	}
+	write := func(tag string) {
+		s, oc := doOp(b, rnd, kn, tag, int(nops))
+		settle(s, oc)
+	}
+	fresh := 0
+	create := func(tag string) {
+		fresh++
+		k := append(append([]byte{}, P...), []byte(fmt.Sprintf("n%d", fresh))...)
+		v := []byte(tag)
+		resp, err := b.Create(context.Background(), &proto.CreateRequest{Key: k, Value: v})
+		if err != nil || !resp.Succeeded {
+			if fail == "" {
+				fail = fmt.Sprintf("create of a fresh key %q failed: %v", k, err)
+			}
+			settle(slot{}, "create-failed")
+			return
+		}
+		settle(slot{rev: resp.Header.Revision, valid: true, verb: 0, key: k, val: v}, "create-ok")
+	}
+	for i := 0; i < 2+rnd.Intn(5); i++ {
+		write("i")
+	}
+	create("before")
+	// (a) the first range read, with a Create committing while it scans
+	if midScan {
+		gate.do = func() { create("during-scan") }
+		atomic.StoreInt64(&gate.gid, lib.GoID())
+		outcomes["create-during-scan"] = true
+	}
+	R0, kv0, err := list(b, P, 0)
+	atomic.StoreInt64(&gate.gid, 0)
+	if err != nil {
+		w.Fail(lib.ImplFailure{CaseID: -1, What: "first list failed: " + err.Error()})
+		return
+	}
+	if !midScan && rnd.Bool() {
+		write("x") // possibly a failed write: the committed revision moves, no event
+	}
+	// (b) Watch from R0+1 with writes placed inside the call
+	ctx, cancel := context.WithCancel(context.Background())
+	var ch <-chan []*proto.Event
+	var werr error
+	th := sched.Go(fmt.Sprintf("watch-%p", b), func() { ch, werr = b.Watch(ctx, string(P), R0+1) })
+	pt, done := sched.Step(th, 20*time.Second)
+	if !done && pt == "watch.subscribed" {
+		if rnd.Chance(2, 3) {
+			create("after-subscribe")
+			outcomes["write-between-subscribe-and-cache-read"] = true
+		}
+		pt, done = sched.Step(th, 20*time.Second)
+	}
+	if !done && pt == "watch.cache_read" {
+		create("after-cache-read")
+		outcomes["write-between-cache-read-and-spawn"] = true
+		if rnd.Bool() {
+			write("y")
+		}
+		pt, done = sched.Step(th, 20*time.Second)
+	}
+	if !done {
+		w.Fail(lib.ImplFailure{CaseID: -1, What: "Watch did not return, parked at " + pt})
+		cancel()
+		return
+	}
+	var emu sync.Mutex
+	var evs []ev
+	wclosed := make(chan struct{})
+	if werr == nil {
+		go func() {
+			for batch := range ch {
+				emu.Lock()
+				for _, e := range batch {
+					evs = append(evs, ev{int(e.Type), e.Revision, e.Kv.Key, e.Kv.Value, e.Kv.Revision})
+				}
+				emu.Unlock()
+			}
+			close(wclosed)
+		}()
+	} else {
+		outcomes["watch-refused"] = true
+	}
+	for i := 0; i < 1+rnd.Intn(5); i++ {
+		write("z")
+	}
+	sort.Slice(slots, func(i, j int) bool { return slots[i].rev < slots[j].rev })
+	lastMatch := uint64(0)
+	for _, s := range slots {
+		if s.rev > R0 && bytes.HasPrefix(s.key, P) {
+			lastMatch = s.rev
+		}
+	}
+	if werr == nil && lastMatch > 0 {
+		waitUntil(15*time.Second, func() bool {
+			emu.Lock()
+			defer emu.Unlock()
+			return len(evs) > 0 && evs[len(evs)-1].rev >= lastMatch
+		})
+		time.Sleep(300 * time.Microsecond)
+	}
+	emu.Lock()
+	got := append([]ev{}, evs...)
+	emu.Unlock()
+	type lst struct {
+		rev uint64
+		kvs []kv
+	}
+	var lists []lst
+	seen := map[uint64]bool{}
+	for _, e := range got {
+		if !seen[e.rev] {
+			seen[e.rev] = true
+			if _, kvs, err := list(b, P, e.rev); err == nil {
+				lists = append(lists, lst{e.rev, kvs})
+			}
+		}
+	}
+	if _, kvs, err := list(b, P, b.GetCurrentRevision()); err == nil {
+		lists = append(lists, lst{b.GetCurrentRevision(), kvs})
+	}
+	cancel()
+	if werr == nil {
+		select {
+		case <-wclosed:
+		case <-time.After(15 * time.Second):
+		}
+	}
+	ss := make([]string, len(slots))
+	for i, s := range slots {
+		ss[i] = s.coq()
+	}
+	es := make([]string, len(got))
+	hs := []uint64{}
+	for i, e := range got {
+		es[i] = e.coq()
+		hs = append(hs, e.rev)
+	}
+	ls := make([]string, len(lists))
+	lr := []uint64{}
+	for i, l := range lists {
+		ls[i] = lib.Pair(lib.N(l.rev), coqStore(l.kvs))
+		lr = append(lr, l.rev)
+	}
+	kind := "list-then-watch/hooked-live-only"
+	if midScan {
+		kind = "list-then-watch/hooked-write-during-scan"
+	}
+	c := lib.Case{Kind: kind,
+		Coq: lib.App("KLw", lib.Bytes(P), lib.List(ss), lib.N(R0), coqStore(kv0), lib.Bool(werr == nil), lib.List(es), lib.List(ls)),
+		JSON: map[string]interface{}{"engine": "memkv", "prefix": string(P), "initial_revision": c0, "successful_writes": len(slots),
+			"R0": R0, "first_list_size": len(kv0), "event_revisions": hs, "list_revisions": lr, "write_during_scan": midScan},
+		Trivial: len(got) == 0 || werr != nil}
+	for k := range outcomes {
+		c.Outcomes = append(c.Outcomes, k)
+	}
+	w.Add(c)
+	if fail != "" {
+		w.Fail(lib.ImplFailure{CaseID: w.Len() - 1, What: fail, Case: c.JSON})
+	}
+}
+
 func main() {
 	lib.QuietLogs()
 	args := lib.ParseArgs()
@@ -432,6 +657,18 @@ func main() {
 		engines = []string{lib.EngMem, lib.EngMem, lib.EngMem, lib.EngBadger}
 	} else if args.Tier == "search" {
 		n = 500
+	}
+	// deterministic placements first (fixed corpus + seeded ones)
+	nh := 30
+	if args.Tier != "quick" {
+		nh = 200
+	}
+	for i := 0; i < nh; i++ {
+		cs := 0
+		if i%3 == 2 {
+			cs = 1 + i%5
+		}
+		hookedRun(w, rnd.Fork(), args.Scratch, i%2 == 0, cs)
 	}
 	for i := 0; i < n; i++ {
 		cs := 0
